@@ -99,6 +99,17 @@ def run(F, R, tier):
     apn = F.body(RF + "add_pending_nv")
     R.ob("C09-X", "a referenced package is recorded as dependency and queued", any(callee_matches(n, [RF + "add_pending_nv_no_referrer"]) for n in apn["_nodes"]) and any(n.get("k") == "MethodCall" and n["name"] == "insert" and peel(n["recv"]).get("field") == "dependencies" for n in apn["_nodes"]),
          "add_pending_nv no longer records / queues the referenced package", apn["file"])
+    fl = Flow(F, lambda n: n.get("k") == "MethodCall" and n["name"] == "insert" and peel(n["recv"]).get("field") == "dependencies")
+    fl.run(apn["body"]["value"], False)
+    bad = []
+    for kind, node, st in fl.exits:
+        if st is False and kind in ("return", "fallthrough"):
+            g = guards_at(F, node) if kind == "return" else []
+            if any(x.kind == "cond" and x.pol and x.node.get("k") == "Binary" and x.node["op"] == "==" for x in g):
+                continue  # dep == referrer: a package does not depend on itself
+            bad.append(node)
+    R.ob("C09-X", "every reference to another package is recorded for the referrer (also when the package was already seen)", not bad,
+         "a path through add_pending_nv does not insert the dependency for this referrer: the referrer's cached entry would not re-queue the package it needs", where(bad[0]) if bad else "")
     apq = F.body(RF + "add_pending_nv_no_referrer")
     pb = [n for n in apq["_nodes"] if n.get("k") == "MethodCall" and n["name"] == "push_back" and peel(n["recv"]).get("field") == "pending_nvs"]
     ok = len(pb) == 1
@@ -111,6 +122,49 @@ def run(F, R, tier):
     apt = F.body(RF + "add_pending_trace")
     ok = any(n.get("k") == "MethodCall" and n["name"] == "add" and peel(n["recv"]).get("field") == "pending_traces" for n in apt["_nodes"]) and any(n.get("k") == "MethodCall" and n["name"] == "add" and peel(n["recv"]).get("field") == "traced_exports" for n in apt["_nodes"])
     R.ob("C09-X", "a requested trace is queued unless already handled", ok, "add_pending_trace shape changed", apt["file"])
+
+    # ---------------- C09-L (lattice) ------------------------------------------
+    ad = F.body("fast_check::range_finder::ImportedExports::add")
+    stars = [n for n in ad["_nodes"] if n["k"] == "Assign" and ctor_of(peel(n["r"])) == "fast_check::range_finder::ImportedExports::Star"]
+    R.floor("C09-L downgrades to Star in ImportedExports::add", len(stars), 1)
+    for a in stars:
+        g = guards_at(F, a)
+        ok = any(x.kind == "cond" and not x.pol and x.node.get("k") == "MethodCall" and x.node["name"] == "contains_key" and peel(x.node["args"][0]).get("v") == "default" for x in g)
+        R.ob("C09-L", "an already traced subset is replaced by Star only if it does not contain `default`", ok,
+             "`*self = ImportedExports::Star` is not guarded by `!subset.contains_key(\"default\")`: Star does not cover `default`, so a previously requested default export is forgotten and the emitted module drops a name that importers still import", where(a))
+    ups = [n for n in ad["_nodes"] if n["k"] == "Assign" and ctor_of(peel(n["r"])) == "fast_check::range_finder::ImportedExports::StarWithDefault"]
+    R.ob("C09-L", "merging can upgrade to StarWithDefault", len(ups) >= 3, "only %d upgrade site(s) to StarWithDefault" % len(ups), ad["file"])
+    mm = [n for n in ad["_nodes"] if n["k"] == "Match"]
+    for m in mm:
+        t = (F.ty(m["scrut"], True) or "").lstrip("&mut ").lstrip("&")
+        if "ImportedExports" in t:
+            ca = any(pat_variants(a_["pat"])[1] for a_ in m["arms"])
+            R.ob("C09-L", "merge of trace requests distinguishes every combination (no catch-all)", not ca, "catch-all in ImportedExports::add", where(m))
+    # namespaces(): the named, exported and default-exported form of one declaration kind agree
+    ns = F.body("symbols::analyzer::SymbolNodeRef::namespaces")
+    table = {}
+    for m in [n for n in ns["_nodes"] if n["k"] == "Match"]:
+        for arm in m["arms"]:
+            v, _ = pat_variants(arm["pat"])
+            b = peel(arm["body"])
+            if b.get("k") == "Tup" and len(b["args"]) == 2:
+                tup = (peel(b["args"][0]).get("v"), peel(b["args"][1]).get("v"))
+                for x in v:
+                    table["::".join(x.split("::")[-2:])] = tup
+    GROUPS = {
+        "class": ["SymbolNodeRef::ClassDecl", "ExportDeclRef::Class", "DefaultDecl::Class"],
+        "function": ["SymbolNodeRef::FnDecl", "ExportDeclRef::Fn", "DefaultDecl::Fn"],
+        "interface": ["SymbolNodeRef::TsInterface", "ExportDeclRef::TsInterface", "DefaultDecl::TsInterfaceDecl"],
+        "enum": ["SymbolNodeRef::TsEnum", "ExportDeclRef::TsEnum"],
+        "namespace": ["SymbolNodeRef::TsNamespace", "ExportDeclRef::TsModule"],
+        "type alias": ["SymbolNodeRef::TsTypeAlias", "ExportDeclRef::TsTypeAlias"],
+        "variable": ["SymbolNodeRef::Var", "ExportDeclRef::Var"],
+    }
+    for kind, members in GROUPS.items():
+        vals = {m_: table.get(m_) for m_ in members}
+        missing = [k for k, v in vals.items() if v is None]
+        R.ob("C09-L", "value/type namespaces of a %s agree between its plain, exported and default-exported form" % kind, not missing and len(set(vals.values())) == 1,
+             "namespaces() gives %s: the tracer would skip the declaration in one of its forms when a type (or value) reference asks for it, leaving an undeclared name in the output" % vals, ns["file"])
 
     # ---------------- C09-E ------------------------------------------------
     tm = F.body("fast_check::transform::transform")
